@@ -274,4 +274,37 @@ theorem extractHeapData_erase {s : State} {v v' : Val} {hd : List Bytes}
     simp [List.getD_eq_getElem?_getD, List.getElem?_map, this]
   · cases h
 
+/-! ### an injection without heap data fails for a value that mentions a slot -/
+
+mutual
+theorem remap_none_of_count {v : Val} {j : Nat} (h : 0 < v.count j) : remap (fun _ => none) v = none := by
+  cases v with
+  | bin b =>
+    cases b with
+    | const c => simp [Val.count] at h
+    | heap k => simp [remap]
+  | tuple id fs => simp only [remap, remapList_none_of_count (by simpa using h), Option.map_none]
+  | func id cs => simp only [remap, remapList_none_of_count (by simpa using h), Option.map_none]
+  | int _ => simp [Val.count] at h
+  | ref _ => simp [Val.count] at h
+  | builtin _ => simp [Val.count] at h
+  | proc _ _ => simp [Val.count] at h
+  | resource _ _ => simp [Val.count] at h
+theorem remapList_none_of_count {vs : List Val} {j : Nat} (h : 0 < countList j vs) :
+    remapList (fun _ => none) vs = none := by
+  cases vs with
+  | nil => simp at h
+  | cons v vs =>
+    simp only [countList_cons] at h
+    simp only [remapList]
+    by_cases h1 : 0 < v.count j
+    · rw [remap_none_of_count h1]
+    · rw [remapList_none_of_count (vs := vs) (j := j) (by omega)]
+      cases remap (fun _ => none) v <;> rfl
+end
+
+theorem injectHeapData_nil_fails (s : State) {v : Val} {j : Nat} (h : 0 < v.count j) :
+    injectHeapData s v [] = (none, s) := by
+  simp [injectHeapData, allocAll, allocMany, remap_none_of_count h]
+
 end QM.Heap
